@@ -171,18 +171,22 @@ func c09Run(cc *c09Case) ([]string, map[string]interface{}, error) {
 			}
 		}
 	}
-	// a data context is not tied to an instance: one that was first used with instance 0 (for up to two cycles)
-	// is then executed with a new instance, which must validate on whatever facts that left
-	if kbX, xerr := obs.InstanceOf(lib, obs.KBName, obs.KBVersion); xerr == nil {
+	// a data context is not tied to an instance: one that was first used with one instance (for a single cycle)
+	// is then executed with another instance, which must validate on whatever facts that left - its own
+	// Retract / Forget / Complete calls included
+	for _, st := range cc.States[:min(2, len(cc.States))] {
+		kbA, aerr := obs.InstanceOf(lib, obs.KBName, obs.KBVersion)
+		kbB, berr := obs.InstanceOf(lib, obs.KBName, obs.KBVersion)
+		if aerr != nil || berr != nil {
+			break
+		}
 		cx := *c
-		cx.Init = cc.States[len(cc.States)-1]
-		cx.PriorSameDC, cx.PriorOtherInstance, cx.PriorKB, cx.PriorMaxCycle = true, true, kbs[0], 2
-		hX := obs.DeepHash(kbs[0])
-		_ = hX
-		rep := val.RunOn(&cx, &prepUse, kbX)
+		cx.Init = st
+		cx.PriorSameDC, cx.PriorOtherInstance, cx.PriorKB, cx.PriorMaxCycle = true, true, kbA, 1
+		rep := val.RunOn(&cx, &prepUse, kbB)
 		if rep.Excluded == "" {
 			for _, m := range clauseViolations(rep) {
-				v = append(v, "new instance executed on a data context that instance 0 had used before: "+m)
+				v = append(v, "instance B executed on a data context that instance A had used for one cycle: "+m)
 			}
 		}
 	}
